@@ -207,6 +207,8 @@ class ExprBuilder:
             t = self.env[e["t"]]
             if self.nref % 2 and e["n"].isidentifier() and not e["n"].startswith("_") and not hasattr(type(t), e["n"]):
                 return getattr(t, e["n"])
+            if self.nref % 6 == 0:
+                return t[pdt.C[e["n"]]]  # third spelling: a ColName as key
             return t[e["n"]]
         if k == "c":
             self.nref = getattr(self, "nref", 0) + 1
